@@ -13,8 +13,9 @@ R3.5 every fetch of an accumulate-and-filter backend drops the settled
      recipients; deletion happens in descending index order
 R3.6 the positions recorded as settled are positions in envelope.recipients
      (looked up there, not taken from the iteration order of the results)
-R3.7 the in-flight mark of an id is released only after its removal was
-     initiated or its next due time was persisted by the same greenlet
+R3.7 the in-flight mark of an id is released only after its removal from
+     storage was carried out (or failed) or its next due time was persisted,
+     by the same greenlet
 """
 from __future__ import annotations
 
@@ -60,8 +61,9 @@ def run(e: Engine, rep: Report):
              '_handle_partial_relay is derived from envelope.recipients '
              '(recipients.index(rcpt) or an enumeration of that list)')
     rep.rule('R3.7', 'every active_ids.discard(id) is preceded on every path '
-             'of its function by store.remove(id) (called or spawned) or '
-             'store.set_timestamp(id, ...) for that id')
+             'of its function by a direct call store.remove(id) or '
+             'store.set_timestamp(id, ...) for that id (attempted, possibly '
+             'failed - never merely spawned)')
     rep.tables.add('c03.QUEUED_WRITERS')
     rep.not_decided += ['multi-round outcome histories as executions (R3.4 '
                         'is the structural reason they go wrong)',
@@ -539,12 +541,6 @@ def r37(e: Engine, rep: Report):
             if nm in ('remove', 'set_timestamp') and n.ast.args and \
                     'store' in canon(n.ast.func.value, n.frame):
                 return ['out:' + canon(n.ast.args[0], n.frame)]
-            if nm in ('_pool_spawn', 'spawn', '_pool_run'):
-                a = n.ast.args
-                for i, x in enumerate(a):
-                    if ast.unparse(x).endswith('store.remove') and \
-                            i + 1 < len(a):
-                        return ['out:' + canon(a[i + 1], n.frame)]
             return []
         before = dataflow.must_events_before(
             g, outcome, edge_events=lambda n, l: outcome(n))
@@ -564,11 +560,12 @@ def r37(e: Engine, rep: Report):
                       'in-flight mark released only after the outcome of '
                       'the attempt was recorded',
                       'active_ids.discard(%s) is reached on a path on which '
-                      'neither the removal of the message was started nor '
+                      'neither the message was removed from storage nor '
                       'its next due time persisted: the message is still '
                       'stored and dispatchable (an announcement by wait() '
-                      'or load() starts a second attempt) while the handler '
-                      'of the first attempt is still pending' % idp.split('#')[0],
+                      'or load() starts a second attempt) while its removal '
+                      'or the handler of the first attempt is still pending'
+                      % idp.split('#')[0],
                       loc=n.loc(), witness=w,
                       reason='store.remove / store.set_timestamp for the '
                       'id on every path before')
